@@ -102,13 +102,35 @@ def handmade(minor):
     return out
 
 
+def _join(v):
+    return ''.join(v) if isinstance(v, list) and all(isinstance(x, str) for x in v) else v
+
+
+def _join_bundle(b):
+    import re
+    if not isinstance(b, dict): return b
+    return {k: (v if re.search(r'^application/(.*\+)?json$', k) else _join(v)) for k, v in b.items()}
+
+
+def rejoin_lines(nb):
+    """what nbformat.read does to the on-disk form: multi-line strings stored as lists of lines become strings"""
+    for c in nb.get('cells', []):
+        if 'source' in c: c['source'] = _join(c['source'])
+        if isinstance(c.get('attachments'), dict):
+            c['attachments'] = {k: _join_bundle(v) for k, v in c['attachments'].items()}
+        for o in c.get('outputs', []) or []:
+            if o.get('output_type') == 'stream': o['text'] = _join(o.get('text'))
+            elif o.get('output_type') in ('display_data', 'execute_result') and 'data' in o: o['data'] = _join_bundle(o['data'])
+    return nb
+
+
 def fixture_triples(repo):
     """(base, local, remote) triples named <stem>--1/2/3 or <stem>, <stem>--x, <stem>--y in tests/files"""
     d = os.path.join(repo, 'nbdime', 'tests', 'files')
     out = []
     if not os.path.isdir(d): return out
     def load(n):
-        with open(os.path.join(d, n), encoding='utf8') as f: return json.load(f)
+        with open(os.path.join(d, n), encoding='utf8') as f: return rejoin_lines(json.load(f))
     names = sorted(x for x in os.listdir(d) if x.endswith('.ipynb'))
     for stem in sorted(set(n.split('--')[0].replace('.ipynb', '') for n in names)):
         tri = [stem + '--%d.ipynb' % i for i in (1, 2, 3)]
